@@ -62,6 +62,7 @@ package rapid
 //@   ensures [over-limit-not-launched] delta(CountOverLimit) >= 1 ==> r0 == core.ErrTooManyExtensions && delta(ExecAny) < delta(CreateExt) && delta(LaunchErrorRecorded) == 1
 //@   ensures [failed-launch-recorded] delta(ExecFailed) >= 1 ==> r0 != nil && delta(LaunchErrorRecorded) == 1 && delta(AwaitRegistered) == 0
 //@   loop range agentPaths: invariant [count-set-once] delta(SetRegisterCount) == 1 && lastarg(SetRegisterCount, 1) == len(agentPaths) % 65536
+//@   loop range agentPaths: invariant [named-by-base-name-and-launched-from-its-path] rangeindex >= 0 ==> lastarg(CreateExt, 1) == pathBase(agentPaths[rangeindex]) && lastarg(ExecAny, 2).Path == agentPaths[rangeindex] && lastarg(ExecAny, 2).Domain == domain
 //@   loop range agentPaths: invariant [bounds] 0 <= rangeindex + 1 && rangeindex + 1 <= len(agentPaths)
 //@   loop range agentPaths: invariant [one-agent-per-path] delta(CreateExt) == rangeindex + 1 && delta(CreateExtFailed) == 0
 //@   loop range agentPaths: invariant [one-exec-per-path] delta(ExecAny) == rangeindex + 1 && delta(ExecExtension) == rangeindex + 1 && delta(ExecRuntime) == 0 && delta(ExecFailed) == 0
